@@ -300,6 +300,14 @@ def chain_condition(repo, run):
         run.ok('C09.R1', fi, 'the chain is followed while isinstance(<current>, XRefNode); the first non-reference is what gets evaluated')
 
 
+def _last_text(v):
+    """text of a value, or of the last element when it is `[<...>, x][-1]` (the last entry of a chain built by appending)"""
+    a = v.ast
+    if isinstance(a, ast.Subscript) and isinstance(a.value, (ast.List, ast.Tuple)) and a.value.elts and norm(a.slice) in ('-1', '- 1'):
+        return norm(a.value.elts[-1])
+    return v.text
+
+
 def r2r3(repo, run):
     fi, paths = _xref_paths(repo)
     n = 0
@@ -311,6 +319,9 @@ def r2r3(repo, run):
             final = looks[-1].result.text if looks else 'self'
             if not evs or p.ret is None or p.ret.text != evs[-1].result.text or not evs[-1].args or evs[-1].args[0].text not in (final, 'carried(%s)' % final):
                 v2.add(('bad', 'a reference does not evaluate to the very object its target evaluates to (result wrapped / copied / not obtained through ctx.evaluate_node): returns %s' % (p.ret.text[:60] if p.ret is not None else None)))
+            elif looks and (evs[-1].kw.get('prefix') is None or _last_text(evs[-1].kw['prefix']) not in ('str(%s)' % looks[-1].args[0].text, looks[-1].args[0].text, 'NodePath.get_str_path(%s)' % looks[-1].args[0].text)):
+                v2.add(('bad', 'the target is not evaluated under its own path (prefix=%s; expected the text of the last reference followed, %s): its evaluation is recorded / cached / reported under another path' % (
+                    evs[-1].kw['prefix'].text[:40] if evs[-1].kw.get('prefix') is not None else 'absent', looks[-1].args[0].text[:40])))
             else:
                 v2.add(('ok', 'the referenced node\'s own (memoised) evaluation result is returned unmodified'))
         for e in looks:
@@ -437,6 +448,7 @@ def check(repo, run, tier):
 
 def mutants(repo):
     return [
+        Mutant('target-evaluated-under-the-reference-path', lambda r: in_func(r, 'XRefNode.ayns.on_evaluate_impl', "return ctx.evaluate_node(curr, prefix=chain[-1])", "return ctx.evaluate_node(curr)"), ['C09.R2']),
         Mutant('path-type-check-inverted', lambda r: in_func(r, 'NodePath.get_list_path', "        elif check_types:", "        elif not check_types:"), ['C09.R4']),
         Mutant('chain-condition-negated', lambda r: in_func(r, 'XRefNode.ayns.on_evaluate_impl', "while isinstance(curr, XRefNode):", "while not isinstance(curr, XRefNode):"), ['C09.R1']),
         Mutant('error-position-of-config-nodes', lambda r: in_func(r, 'Error.__init__', "if self.stage == 'parsing':", "if self.stage != 'parsing':"), ['C09.R5']),
